@@ -1,12 +1,9 @@
-(* C11 source tie - read_ctm (open-file branch): interpreting the regenerated source term PV.Gen.C11Src.src_read_ctm on
-   the field-level encoding of a ctm file (C11.SrcRun) returns exactly the encoding of Model.read_ctm_file, and raises
-   ValueError / KeyError exactly when the model does - for every file, with and without wc2utt.
-   One iteration of the loop = Model.read_ctm_step ([step_tie]); the loop = fold_left of it ([loop_tie], invariant over
-   MiniPy.Lemmas.forc_loop); the final comprehension with its stable sort by start time = the model's map / sort_by
-   ([comp_tie], [sort_start_tie]). *)
+(* C11 source tie - read_ctm (open-file branch), whole block: the loop over the lines is the model's fold of
+   read_ctm_step (TieCtmStep.step_tie per line, invariant over MiniPy.Lemmas.forc_loop), the final comprehension with
+   its sort by start time is the model's map / sort_by.  Main result: [read_ctm_tie]. *)
 From Coq Require Import ZArith QArith List String Ascii Bool Lia.
-From PV Require C11.ProofsCtm.
-From PV Require Import C11.Model MiniPy.Syntax MiniPy.Interp MiniPy.Lemmas Gen.C11Src C11.SrcRun C11.TieBase.
+From PV Require C11.Spec.
+From PV Require Import C11.Model MiniPy.Syntax MiniPy.Interp MiniPy.Lemmas Gen.C11Src C11.SrcRun C11.TieBase C11.TieCtmStep.
 Import ListNotations.
 Local Open Scope string_scope.
 
@@ -15,117 +12,150 @@ Local Open Scope string_scope.
 #[local] Arguments Qcompare : simpl never.
 #[local] Arguments inject_Z : simpl never.
 #[local] Arguments str_eqb : simpl never.
-#[local] Arguments wc_eqb : simpl never.
-
-Ltac norm := repeat (cbn; match goal with |- context [Pos.to_nat ?p] =>
-  let v := eval compute in (Pos.to_nat p) in change (Pos.to_nat p) with v end); cbn.
-
-(* Q tests on integers -> Z tests *)
-Lemma ltb_match a b : match (a ?= b)%Z with Datatypes.Lt => true | _ => false end = (a <? b)%Z.
-Proof. reflexivity. Qed.
-Lemma gtb_match a b : match (a ?= b)%Z with Datatypes.Gt => true | _ => false end = (b <? a)%Z.
-Proof. rewrite <- Z.gtb_ltb. reflexivity. Qed.
-Ltac qz := change (0#1) with (inject_Z 0); rewrite ?Qred_inject_add, ?Qcompare_inject, ?ltb_match, ?gtb_match.
-
-Definition loop_body : stmt :=
-  match src_read_ctm with SSeq _ (SSeq (SForC _ _ b) _) => b | _ => SPass end.
-Definition ret_stmt : stmt :=
-  match src_read_ctm with SSeq _ (SSeq _ r) => r | _ => SPass end.
-
-(* ---- the OrderedDict of transcripts ------------------------------------------------------------------------ *)
-Definition enc_tl (vs : list timed) : val := VList (map enc_timed vs).
-Definition enc_od (d : list (str * list timed)) : list (val * val) := enc_al enc_str enc_tl d.
 #[local] Arguments enc_od : simpl never.
 
-Lemma od_get u d : dict_get (enc_od d) (enc_str u) = option_map enc_tl (assoc str_eqb u d).
-Proof. apply al_get. intros a b. apply val_eqb_enc_str. Qed.
+(* ---- the loop ------------------------------------------------------------------------------------------------ *)
+Lemma fold_raise m e ls : fold_left (read_ctm_step m) ls (Model.Raise e) = Model.Raise e.
+Proof. induction ls as [|l ls IH]; [reflexivity|exact IH]. Qed.
 
-Lemma od_set u vs d : dict_set (enc_od d) (enc_str u) (enc_tl vs) = enc_od (al_set str_eqb u vs d).
-Proof. apply (al_set_enc str_eqb enc_str enc_tl). intros a b. apply val_eqb_enc_str. Qed.
-
-Lemma od_append_set u (x : timed) (d : list (str * list timed)) :
-  od_append u x d = al_set str_eqb u (match assoc str_eqb u d with Some vs => vs ++ [x] | None => [x] end)%list d.
-Proof.
-  induction d as [|[k vs] t IH]; [reflexivity|].
-  cbn [od_append al_set assoc]. destruct (str_eqb u k); [reflexivity|]. rewrite IH. reflexivity.
-Qed.
-
-Lemma al_set_set u (a b : list timed) d : al_set str_eqb u a (al_set str_eqb u b d) = al_set str_eqb u a d.
-Proof.
-  induction d as [|[k vs] t IH]; cbn [al_set].
-  - rewrite C11.ProofsCtm.str_eqb_refl. reflexivity.
-  - destruct (str_eqb u k) eqn:E; cbn [al_set]; rewrite E; [reflexivity|rewrite IH; reflexivity].
-Qed.
-
-Lemma assoc_al_set u (a : list timed) d : assoc str_eqb u (al_set str_eqb u a d) = Some a.
-Proof.
-  induction d as [|[k vs] t IH]; cbn [al_set assoc].
-  - rewrite C11.ProofsCtm.str_eqb_refl. reflexivity.
-  - destruct (str_eqb u k) eqn:E; cbn [assoc]; rewrite E; [reflexivity|exact IH].
-Qed.
-
-Lemma enc_tl_snoc vs x : VList (map enc_timed vs ++ [enc_timed x]) = enc_tl (vs ++ [x]).
-Proof. unfold enc_tl. rewrite map_app. reflexivity. Qed.
-
-(* wc2utt[(wfn, chan)] *)
-Lemma wc_get w c (l : list ((str * str) * str)) :
-  dict_get (map (fun kv => (VTuple [enc_str (fst (fst kv)); enc_str (snd (fst kv))], enc_str (snd kv))) l)
-           (VTuple [enc_str w; enc_str c])
-  = option_map enc_str (assoc wc_eqb (w, c) l).
-Proof.
-  exact (al_get wc_eqb (fun wc : str * str => VTuple [enc_str (fst wc); enc_str (snd wc)]) enc_str
-           (fun a b => val_eqb_wc (fst a) (snd a) (fst b) (snd b)) (w, c) l).
-Qed.
-
-(* ---- one iteration ------------------------------------------------------------------------------------------ *)
-Definition base (C W : val) (d : list (str * list timed)) : list (string * val) :=
-  [("ctm", C); ("wc2utt", W); ("transcripts", VDict (enc_od d))].
-
-Definition temps (a1 a2 a3 a4 a5 a6 a7 a8 a9 a10 a11 : val) : list (string * val) :=
-  [("$t2", a1); ("line_no", a2); ("line", a3); ("$t1", a4); ("wfn", a5); ("chan", a6); ("start", a7);
-   ("dur", a8); ("token", a9); ("utt_id", a10); ("end", a11)].
-
-Definition shape_ok (rest : list (string * val)) : Prop :=
-  rest = [] \/ exists a1 a2 a3 a4 a5 a6 a7 a8 a9 a10 a11, rest = temps a1 a2 a3 a4 a5 a6 a7 a8 a9 a10 a11.
-
-Ltac shape_done := right; unfold temps; do 11 eexists; reflexivity.
-
-(* the dictionary part of an iteration, once the line is accepted *)
-Ltac od_part u Ea :=
-  rewrite od_get; destruct (assoc str_eqb u _) as [vs|] eqn:Ea; norm;
-  [ rewrite od_get, Ea; norm;
-    match goal with |- context [VTuple [enc_str ?t; VQ (inject_Z ?s); VQ (inject_Z ?e)]] =>
-      change (VTuple [enc_str t; VQ (inject_Z s); VQ (inject_Z e)]) with (enc_timed (t, s, e)) end;
-    rewrite enc_tl_snoc, od_set
-  | change (VList []) with (enc_tl []); rewrite od_set, od_get, assoc_al_set; norm;
-    match goal with |- context [VTuple [enc_str ?t; VQ (inject_Z ?s); VQ (inject_Z ?e)]] =>
-      change (VTuple [enc_str t; VQ (inject_Z s); VQ (inject_Z e)]) with (enc_timed (t, s, e)) end;
-    change (VList [enc_timed ?x]) with (enc_tl [x]);
-    match goal with |- context [VList [enc_timed ?x]] => change (VList [enc_timed x]) with (enc_tl [x]) end;
-    rewrite od_set, al_set_set ].
-
-Lemma step_tie m C i l d rest evs : shape_ok rest ->
-  let st := set_var "$t2" (VTuple [VInt i; enc_seg_line l]) (mkState (base C (enc_wc2utt m) d ++ rest) evs) in
-  match read_ctm_step m (Model.Ok d) l with
+Lemma loop_tie m C : forall ls i d rest evs, shape_ok rest ->
+  let st := mkState (base C (enc_wc2utt m) d ++ rest) evs in
+  match fold_left (read_ctm_step m) ls (Model.Ok d) with
   | Model.Ok d' => exists rest', shape_ok rest' /\
-      exec ext11 loop_body st = Ok CNormal (mkState (base C (enc_wc2utt m) d' ++ rest') evs)
-  | Model.Raise e => exists st', exec ext11 loop_body st = Exc (exn_name e) st'
+      forc_loop ext11 "$t2" loop_body (enum_from i (map enc_seg_line ls)) st
+      = Ok CNormal (mkState (base C (enc_wc2utt m) d' ++ rest') evs)
+  | Model.Raise e => exists st', forc_loop ext11 "$t2" loop_body (enum_from i (map enc_seg_line ls)) st = Exc (exn_name e) st'
   end.
 Proof.
-  intros Hs. destruct l as [[[[w c] s] dd] t]. cbv zeta. unfold read_ctm_step.
-  unfold loop_body, src_read_ctm, base, enc_seg_line.
-  destruct m as [m|]; unfold enc_wc2utt.
-  - (* wc2utt given *)
-    destruct Hs as [->|(a1&a2&a3&a4&a5&a6&a7&a8&a9&a10&a11&->)]; unfold temps.
-    all: norm; rewrite wc_get; destruct (assoc wc_eqb (w, c) m) as [u|] eqn:Ew; norm;
-      [|eexists; reflexivity].
-    all: qz; destruct (s <? 0)%Z eqn:E1; norm; [eexists; reflexivity|].
-    all: destruct (s + dd <? s)%Z eqn:E2; norm; [eexists; reflexivity|].
-    all: rewrite od_append_set; od_part u Ea.
-    all: eexists; (split; [|reflexivity]); shape_done.
-  - destruct Hs as [->|(a1&a2&a3&a4&a5&a6&a7&a8&a9&a10&a11&->)]; unfold temps.
-    all: norm; qz; destruct (s <? 0)%Z eqn:E1; norm; [eexists; reflexivity|].
-    all: destruct (s + dd <? s)%Z eqn:E2; norm; [eexists; reflexivity|].
-    all: rewrite od_append_set; od_part w Ea.
-    all: eexists; (split; [|reflexivity]); shape_done.
+  induction ls as [|l ls IH]; intros i d rest evs Hs; cbv zeta.
+  - cbn. exists rest. split; [exact Hs|reflexivity].
+  - cbn [fold_left map enum_from forc_loop].
+    pose proof (step_tie m C i l d rest evs Hs) as Hstep. cbv zeta in Hstep.
+    destruct (read_ctm_step m (Model.Ok d) l) as [d1|e].
+    + destruct Hstep as [rest1 [Hs1 Hx]]. rewrite Hx.
+      exact (IH (i + 1)%Z d1 rest1 evs Hs1).
+    + destruct Hstep as [st' Hx]. rewrite Hx, fold_raise. exists st'.
+      destruct e; reflexivity.
+Qed.
+
+(* ---- sorted(transcript, key=lambda x: x[1]) ------------------------------------------------------------------- *)
+Local Notation t_start := C11.Spec.t_start.
+Definition kf (x : timed) : val * val := (qz (t_start x), enc_timed x).
+
+Lemma t_start_eq (x : timed) : t_start x = snd (fst x).
+Proof. reflexivity. Qed.
+
+Lemma keys_tie (vs : list timed) : forall st,
+  exists st', sorted_keys ext11 "x" (ESub (EName "x") (EConst (VInt 1))) (map enc_timed vs) st = Ok (map kf vs) st'.
+Proof.
+  induction vs as [|[[t s] e] vs IH]; intros st.
+  - exists st. reflexivity.
+  - cbn [map sorted_keys]. cbn [eval].
+    unfold set_var at 1. cbn [vars]. rewrite lookup_update_eq. cbn [bind].
+    change (subscript (enc_timed (t, s, e)) (VInt 1) (set_var "x" (enc_timed (t, s, e)) st))
+      with (Ok (qz s) (set_var "x" (enc_timed (t, s, e)) st)).
+    cbn [bind].
+    destruct (IH (set_var "x" (enc_timed (t, s, e)) st)) as [st' Hk].
+    exists st'. rewrite Hk. reflexivity.
+Qed.
+
+Lemma cmp_lt_qz a b : cmp_eval Lt (qz a) (qz b) = Some (a <? b)%Z.
+Proof. unfold qz. cbn. rewrite Qcompare_inject. reflexivity. Qed.
+
+Lemma insert_tie e (l : list timed) :
+  insert_keyed (kf e) (map kf l) = Some (map kf (ins_r t_start e l)).
+Proof.
+  induction l as [|y t IH]; [reflexivity|].
+  cbn [map insert_keyed ins_r]. unfold kf at 1 2. cbn [fst]. rewrite cmp_lt_qz.
+  destruct (t_start y <? t_start e)%Z; [|reflexivity].
+  rewrite IH. reflexivity.
+Qed.
+
+Lemma sort_start_tie (vs : list timed) :
+  sort_keyed (map kf vs) = Some (map enc_timed (sort_by timed_start_leb vs)).
+Proof.
+  unfold sort_keyed.
+  assert (H : sort_keyed_aux (map kf vs) = Some (map kf (sort_r t_start vs))).
+  { induction vs as [|e vs IH]; [reflexivity|].
+    cbn [map sort_keyed_aux]. rewrite IH. cbn [sort_r fold_right]. apply insert_tie. }
+  rewrite H. cbn [option_map]. rewrite map_map. cbn [kf snd].
+  rewrite (sort_r_sort_by t_start vs). reflexivity.
+Qed.
+
+(* ---- the final comprehension ------------------------------------------------------------------------------------- *)
+Definition comp_elt : expr :=
+  ETupleLit [EName "utt_id"; ESorted (EName "transcript") "x" (ESub (EName "x") (EConst (VInt 1)))].
+
+Definition item_of (ut : str * list timed) : val := VTuple [enc_str (fst ut); enc_tl (snd ut)].
+
+Lemma eval_tuple2 ext x it y key st :
+  eval ext (ETupleLit [EName x; ESorted it y key]) st =
+  bind (eval ext (EName x) st) (fun va st1 =>
+    bind (eval ext (ESorted it y key) st1) (fun vb st2 => Ok (VTuple [va; vb]) st2)).
+Proof.
+  cbn [eval]. destruct (lookup x (vars st)); cbn [bind]; [|reflexivity].
+  match goal with |- bind (bind (bind ?X _) _) _ = bind ?X _ => destruct X; reflexivity end.
+Qed.
+
+Lemma eval_name ext x st v : lookup x (vars st) = Some v -> eval ext (EName x) st = Ok v st.
+Proof. intros H. cbn [eval]. rewrite H. reflexivity. Qed.
+
+Lemma comp_tie (d : list (str * list timed)) : forall st,
+  exists st', comp_loop ext11 comp_elt "$t3" ["utt_id"; "transcript"] (EConst (VBool true)) (map item_of d) st
+              = Ok (map enc_utt (map (fun ut => (fst ut, sort_by timed_start_leb (snd ut))) d)) st'.
+Proof.
+  induction d as [|[u vs] d IH]; intros st.
+  - exists st. reflexivity.
+  - cbn [map comp_loop]. unfold item_of at 1. cbn [fst snd].
+    change (bind_item "$t3" ["utt_id"; "transcript"] (VTuple [enc_str u; enc_tl vs]) st)
+      with (Ok tt (set_var "transcript" (enc_tl vs) (set_var "utt_id" (enc_str u)
+                     (set_var "$t3" (VTuple [enc_str u; enc_tl vs]) st)))).
+    cbn [bind]. change (eval ext11 (EConst (VBool true)) ?s) with (Ok (VBool true) s).
+    cbn [bind truthy]. unfold comp_elt. rewrite eval_tuple2.
+    rewrite (eval_name ext11 "utt_id" _ (enc_str u))
+      by (cbn [set_var vars]; rewrite lookup_update_neq by reflexivity; apply lookup_update_eq).
+    cbn [bind]. rewrite eval_sorted.
+    rewrite (eval_name ext11 "transcript" _ (enc_tl vs)) by (cbn [set_var vars]; apply lookup_update_eq).
+    cbn [bind]. unfold enc_tl at 1. cbn [container_items].
+    match goal with |- context [sorted_keys ext11 "x" _ _ ?s] => destruct (keys_tie vs s) as [st1 Hk] end.
+    rewrite Hk. cbn [bind]. rewrite sort_start_tie. cbn [bind].
+    destruct (IH st1) as [st2 Hc]. unfold comp_elt in Hc. rewrite Hc. cbn [bind]. exists st2. reflexivity.
+Qed.
+
+Lemma items_enc (d : list (str * list timed)) :
+  map (fun kv : val * val => VTuple [fst kv; snd kv]) (enc_od d) = map item_of d.
+Proof. unfold enc_od, enc_al. rewrite map_map. reflexivity. Qed.
+
+(* ---- the whole block -------------------------------------------------------------------------------------------- *)
+Theorem read_ctm_tie ls m :
+  match read_ctm_file ls m with
+  | Model.Ok out => exists st, run_read_ctm (map enc_seg_line ls) (enc_wc2utt m) = Ok (VList (map enc_utt out)) st
+  | Model.Raise e => exists st, run_read_ctm (map enc_seg_line ls) (enc_wc2utt m) = Exc (exn_name e) st
+  end.
+Proof.
+  unfold run_read_ctm, Interp.run, read_ctm_file.
+  set (lines := map enc_seg_line ls). set (W := enc_wc2utt m).
+  change src_read_ctm with
+    (SSeq (SAssign [TName "transcripts"] (ECall "OrderedDict" [] []))
+       (SSeq (SForC "$t2" (ECall "enumerate" [EName "ctm"] []) loop_body) ret_stmt)).
+  rewrite exec_seq.
+  change (exec ext11 (SAssign [TName "transcripts"] (ECall "OrderedDict" [] []))
+            (mkState [("ctm", VList lines); ("wc2utt", W)] []))
+    with (Ok CNormal (mkState (base (VList lines) W [] ++ []) [])).
+  cbn [bind]. rewrite exec_seq, exec_forc.
+  change (eval ext11 (ECall "enumerate" [EName "ctm"] []) (mkState (base (VList lines) W [] ++ []) []))
+    with (Ok (VList (enum_from 0 lines)) (mkState (base (VList lines) W [] ++ []) [])).
+  cbn [bind iter_items container_items].
+  pose proof (loop_tie m (VList lines) ls 0%Z [] [] [] (or_introl eq_refl)) as Hl. cbv zeta in Hl.
+  fold lines W in Hl.
+  destruct (fold_left (read_ctm_step m) ls (Model.Ok [])) as [d'|e].
+  - destruct Hl as [rest' [Hs Hf]]. rewrite Hf. cbn [bind].
+    unfold ret_stmt, src_read_ctm. cbn [exec]. rewrite eval_listcomp.
+    match goal with |- context [eval ext11 (ECall "list" ?a ?k) ?s] =>
+      change (eval ext11 (ECall "list" a k) s)
+        with (Ok (VList (map (fun kv : val * val => VTuple [fst kv; snd kv]) (enc_od d'))) s) end.
+    cbn [bind foreign container_items]. rewrite items_enc.
+    match goal with |- context [comp_loop ext11 ?e ?x ?ns ?c ?l ?s] => destruct (comp_tie d' s) as [st1 Hc] end.
+    unfold comp_elt in Hc. rewrite Hc. cbn [bind]. eexists. reflexivity.
+  - destruct Hl as [st' Hf]. rewrite Hf. cbn [bind]. eexists. reflexivity.
 Qed.
